@@ -143,8 +143,9 @@ def external_cube(tier, ctor):
             if via:
                 op['via'] = via
             r['script'] = {'kind': 'level', 'price': conc(P, model), 'ops': [op]}
+            mp = lv[L.field_index('PriceLevel', 'orders')][L.field_index('OrderQueue', 'orders')]
             r['pred'] = {'visible': conc(vis, model), 'hidden': conc(hid, model), 'count': conc(cnt, model),
-                         'orders': sorted(canon(o) for o in ojs)}
+                         'orders': sorted(canon(order_json(L, conc(o_, model))) for k_, occ_, o_ in mp.entries if conc(occ_, model))}
             r['desc'] = '%s(price=%d, carried visible=%d hidden=%d count=%d, %d orders)' % (ctor, op['price'], op['visible'], op['hidden'], op['count'], k)
         out.append(r)
     return {'results': out, 'stats': cube_stats(ex, models)}
